@@ -85,6 +85,18 @@ theorem C15_gen_basic (h d : Nat) (s : St) :
   refine ⟨by simp [Signal.basicSetHandler, Src.collect], rfl, by decide⟩
 
 open MpVerif.Gen in
+/-- **The model's memory assumption is discharged by the declarations.**  The transition system lets every load of a
+    cell (the stop query, the handler's tests) see the latest store, also one made by a signal handler in between.
+    C++ only guarantees that for `volatile std::sig_atomic_t` / `std::atomic` objects: the generated declarations say
+    `stop_` is `volatile std::sig_atomic_t` and the four others are atomics.  (Dropping `volatile` lets an optimising
+    compiler hoist the load out of a polling loop: seeded change C15-5.) -/
+theorem C15_gen_cells :
+    Signal.cellDecls.map (fun p => (p.1, p.2.accessesMemory)) =
+      [(.stop, true), (.handler, true), (.data, true), (.msgPtr, true), (.msgSize, true)] ∧
+    Signal.cellDecls.lookup .stop = some ⟨true, false, "std::sig_atomic_t"⟩ := by
+  decide
+
+open MpVerif.Gen in
 /-- the call-outs sit where the check assumes: every store is followed by its own `MP_VERIF_POINT` before the
     next store, with these names (so a signal can be delivered in every gap, and only there) -/
 theorem C15_gen_callouts :
@@ -674,6 +686,54 @@ theorem C15_trace_is_run (md : Mode) (s : St) (pre : List Ev) (e : Ev) (post : L
   · intro g he hh
     subst he
     exact exec_sig md _ g hh
+
+/-! ## the lifecycle automaton and the step lists agree -/
+
+/-- registrations and work steps, as a driver performs them between construction and teardown -/
+private def bodySteps (L : Layout) : List (Option (Nat × Nat)) → List Micro
+  | [] => []
+  | none :: r => Micro.work :: bodySteps L r
+  | some (h, d) :: r => regSteps L h d ++ bodySteps L r
+
+private theorem body_accepted (L : Layout) (body : List (Option (Nat × Nat))) (r0 : Option (Nat × Nat)) :
+    ∃ r1, ∀ rest, pcRunSteps L (.live r0) (bodySteps L body ++ rest) = pcRunSteps L (.live r1) rest := by
+  induction body generalizing r0 with
+  | nil => exact ⟨r0, fun rest => rfl⟩
+  | cons b bs ih =>
+    cases b with
+    | none =>
+      obtain ⟨r1, h1⟩ := ih r0
+      exact ⟨r1, fun rest => by simpa [bodySteps, pcRunSteps, pcNext] using h1 rest⟩
+    | some p =>
+      obtain ⟨h, d⟩ := p
+      obtain ⟨r1, h1⟩ := ih (some (h, d))
+      refine ⟨r1, fun rest => ?_⟩
+      have := h1 rest
+      cases hc : L.regClearFirst <;>
+        simp [bodySteps, regSteps, pcRunSteps, pcNext, hc, List.append_assoc] <;> exact this
+
+/-- **Linking lemma between `pcNext` and the step lists**: for every store order `L`, the automaton accepts
+    `ctorSteps L`, then any sequence of registrations (their stores in the order `regSteps L`) and work steps, then
+    `dtorSteps L`, and is back at `idle` — so the order written into `pcNext` is the order of the step lists that
+    `C15_gen_ctor/_setHandler/_dtor` tie to the source. -/
+theorem C15_automaton_accepts_lifecycle (L : Layout) (body : List (Option (Nat × Nat))) :
+    pcRunSteps L .idle (ctorSteps L ++ (bodySteps L body ++ dtorSteps L)) = some .idle := by
+  have hc : ∀ rest, pcRunSteps L .idle (ctorSteps L ++ rest) = pcRunSteps L (.live none) rest := by
+    intro rest
+    cases h : L.ctorStopFirst <;> simp [ctorSteps, pcRunSteps, pcNext, h]
+  obtain ⟨r1, hb⟩ := body_accepted L body none
+  rw [hc, hb]
+  cases h : L.dtorKeepsStop <;> simp [dtorSteps, pcRunSteps, pcNext, h]
+
+open MpVerif.Gen in
+/-- the step list of the re-entrance model (`handlerSteps`, hand-written, `++stop_` split into load and store) run
+    without a nested signal is the execution of the generated source statements -/
+theorem C15_gen_reentrant_steps (md : Mode) (s : St) (g : Sig) (hd : s.disp g = true) (hh : s.halted = none) :
+    Src.runHandler md g Signal.handleSigInt (Src.onEntry md s g) [] =
+      some ((hRun md g handlerSteps ⟨entryState md s g, 0, []⟩).s, (hRun md g handlerSteps ⟨entryState md s g, 0, []⟩).obs) := by
+  rw [C15_gen_handleSigInt md s g hd]
+  have := C15_reentrant_steps_are_deliver md s g hd hh
+  rw [this.1, this.2]
 
 /-! ## the correspondence inputs are instances of the theorems -/
 
